@@ -903,6 +903,9 @@ def i_XCHG(i, fmap):
     fmap[eip] = fmap[eip] + i.length
     op1 = i.operands[0]
     op2 = i.operands[1]
+    if op2._is_mem:
+        # the memory operand is written first: its address may depend on the other operand
+        op1, op2 = op2, op1
     tmp = fmap(op1)
     fmap[op1] = fmap(op2)
     fmap[op2] = tmp
